@@ -14,6 +14,10 @@ Exit 0 held / 1 violation (VIOLATION line) / 3 checker crash.  Undecided obligat
 """
 import sys, os, json, time, subprocess, argparse, importlib, re, hashlib, traceback
 
+if os.environ.get('PYTHONHASHSEED') != '0':
+    # hash randomisation changes the order in which terms reach z3 and with it the solver's search: fixed, so that verdicts and timings repeat
+    os.environ['PYTHONHASHSEED'] = '0'
+    os.execv(sys.executable, [sys.executable] + sys.argv)
 ROOT = os.path.dirname(os.path.dirname(os.path.abspath(__file__)))
 sys.path.insert(0, ROOT)
 os.chdir(ROOT)
